@@ -296,3 +296,62 @@ def rule_field_coverage(ck, repo, R):
     s = src(fa.node)
     ck.decide("any(smi) or atom.atomic_symbol not in organic_set or atom.is_radical or kwargs.get('hydrogens', False)" in s, R, 'bracket-condition', None,
               'the bracket condition no longer covers isotope/stereo/charge/map (any(smi)), non-organic symbols and radicals', file=fa.file, line=fa.lineno)
+
+
+def rule_closure_slots(ck, repo, R):
+    """ring-closure digits: the neighbour-order slot reserved when the digit opens is the slot filled when it closes"""
+    ck.rule(R, 'opening a ring-closure digit appends a placeholder to the ordered neighbour list of the atom and records its index (len(order[atom]) '
+               'taken BEFORE the append) in the closure record; closing the digit writes the partner at exactly that recorded index of that atom. '
+               'Chirality marks are interpreted against this order, so filling another free slot (first None, last) inverts a centre that opens '
+               'two rings closed in a different order')
+    f = repo.func('chython.files.daylight.parser:parser')
+    ck.require(f is not None, 'parser() not found')
+    opens = []
+    for n in ast.walk(f.node):
+        if isinstance(n, ast.Call) and isinstance(n.func, ast.Attribute) and n.func.attr == 'append' and len(n.args) == 1 and \
+                isinstance(n.args[0], ast.Constant) and n.args[0].value is None and isinstance(n.func.value, ast.Subscript) and src(n.func.value.value) == 'order':
+            opens.append(n)
+    ck.require(len(opens) == 1, f'expected one placeholder reservation `order[x].append(None)`, found {len(opens)}')
+    res = opens[0]
+    atom = src(res.func.value.slice)
+    # the block containing the reservation
+    blk = None
+    for n in ast.walk(f.node):
+        for fld in ('body', 'orelse'):
+            b = getattr(n, fld, None)
+            if isinstance(b, list) and any(isinstance(s, ast.Expr) and s.value is res for s in b):
+                blk = b
+    ck.require(blk is not None, 'reservation statement not found in a block')
+    idx_stmt = [i for i, s in enumerate(blk) if isinstance(s, ast.Expr) and s.value is res][0]
+    rec = [(i, s) for i, s in enumerate(blk) if isinstance(s, ast.Assign) and isinstance(s.targets[0], ast.Subscript) and src(s.targets[0].value) == 'cycles']
+    ck.require(len(rec) == 1 and isinstance(rec[0][1].value, ast.Tuple), 'closure record `cycles[token] = (...)` not found next to the reservation')
+    ri, rs = rec[0]
+    elts = [src(e) for e in rs.value.elts]
+    want_len = f'len(order[{atom}])'
+    pos_len = [i for i, e in enumerate(elts) if e == want_len]
+    pos_atom = [i for i, e in enumerate(elts) if e == atom]
+    ck.decide(bool(pos_len) and ri < idx_stmt, R, 'open:index-recorded', elts,
+              f'the closure record {elts} does not hold {want_len} evaluated before the placeholder is appended: the reserved slot is not remembered',
+              file=f.file, line=rs.lineno, func='parser', construct=src(rs))
+    ck.decide(bool(pos_atom), R, 'open:atom-recorded', elts, f'the closure record {elts} does not hold the opening atom `{atom}`', file=f.file, line=rs.lineno, func='parser')
+    # close site: unpacking of the record
+    unp = [n for n in ast.walk(f.node) if isinstance(n, ast.Assign) and isinstance(n.targets[0], ast.Tuple) and isinstance(n.value, ast.Subscript) and src(n.value.value) == 'cycles']
+    ck.require(len(unp) == 1, 'closure record unpacking not found')
+    names = [src(e) for e in unp[0].targets[0].elts]
+    ck.decide(len(names) == len(elts), R, 'close:record-shape', names, f'record is written with {len(elts)} fields and read with {len(names)}', file=f.file, line=unp[0].lineno, func='parser')
+    fills = [n for n in ast.walk(f.node) if isinstance(n, ast.Assign) and isinstance(n.targets[0], ast.Subscript) and isinstance(n.targets[0].value, ast.Subscript) and
+             src(n.targets[0].value.value) == 'order']
+    ck.require(len(fills) == 1, f'expected one fill `order[a][i] = ...`, found {len(fills)}')
+    fl = fills[0]
+    got_atom, got_idx = src(fl.targets[0].value.slice), src(fl.targets[0].slice)
+    ok = bool(pos_len) and bool(pos_atom) and len(names) == len(elts) and got_atom == names[pos_atom[0]] and got_idx == names[pos_len[0]]
+    ck.decide(ok, R, 'close:fills-reserved-slot', f'order[{got_atom}][{got_idx}]',
+              f'closing writes `{src(fl)}`; the slot reserved at opening is order[<opening atom>][<recorded index>]'
+              + (f' = order[{names[pos_atom[0]]}][{names[pos_len[0]]}]' if pos_len and pos_atom and len(names) == len(elts) else ' (index not recorded)'),
+              file=f.file, line=fl.lineno, func='parser', construct=src(fl))
+    ck.decide(src(fl.value) == atom, R, 'close:partner', src(fl.value), f'the reserved slot is filled with `{src(fl.value)}` instead of the closing atom `{atom}`', file=f.file, line=fl.lineno, func='parser')
+    # and the closing atom gets the opening atom appended (its own order)
+    back = [n for n in ast.walk(f.node) if isinstance(n, ast.Call) and isinstance(n.func, ast.Attribute) and n.func.attr == 'append' and isinstance(n.func.value, ast.Subscript) and
+            src(n.func.value.value) == 'order' and src(n.func.value.slice) == atom and n.args and pos_atom and len(names) == len(elts) and src(n.args[0]) == names[pos_atom[0]]]
+    ck.decide(len(back) == 1, R, 'close:back-reference', len(back), 'the closing atom no longer appends the opening atom to its own neighbour order', file=f.file, func='parser')
+    ck.floor(R, 6)
